@@ -192,7 +192,7 @@ def state_of(e):
     return (s.l1,) if s.l2 is None else (s.l1, s.l2)
 
 
-def replay(m, trace, kind, latlon=False, tol=1e-9):
+def replay(m, trace, kind, latlon=False, tol=1e-9, unit=1.0):
     """Re-score matcher m's lattice_best with the documented model.
     -> list of (tag, message); tags: 'score' (C02), 'geom' and 'cut' (C05).  Also returns the number of checked states."""
     v = []
@@ -210,7 +210,7 @@ def replay(m, trace, kind, latlon=False, tol=1e-9):
     def dclose(a, b):
         if latlon:
             return abs(a - b) <= dtol + 1e-6 * abs(b)
-        return close(a, b)
+        return abs(a - b) <= tol * max(unit, abs(a), abs(b))      # unit: the length scale of the input (1 for the standard alphabets)
 
     ne_len = m.ne_length_factor_log
     avoid = getattr(m, "avoid_goingback", True)
@@ -234,7 +234,7 @@ def replay(m, trace, kind, latlon=False, tol=1e-9):
                 pim = tuple(s.p1)
             else:
                 d, pim, tim = geo.p2s(o, s.p1, s.p2)
-                if s.pi is None or geo.d(pim, s.pi) > (ptol if latlon else 1e-9 * max(1.0, abs(pim[0]), abs(pim[1]))):
+                if s.pi is None or geo.d(pim, s.pi) > (ptol if latlon else 1e-9 * max(unit, abs(pim[0]), abs(pim[1]))):
                     v.append(("geom", f"[{j}] {e.key}: reported position {s.pi} is not the nearest point {pim} of the edge to observation {o}"))
                 seglen = geo.d(s.p1, s.p2)
                 if seglen > 0 and (s.ti is None or abs(tim - s.ti) * (seglen if latlon else 1.0) > (ptol if latlon else 1e-9)):
@@ -256,7 +256,7 @@ def replay(m, trace, kind, latlon=False, tol=1e-9):
                     wt = 0.05 + 3.0 * ext ** 2 * max(math.tan(math.radians(abs(s.p1[0]))), 0.05) / rg.R_EARTH + 0.25
                     if abs(wd - d) > wt:
                         v.append(("geom", f"[{j}] {e.key}: witness points of the non-emitting state are {wd} apart, true minimum {d}"))
-                elif abs(wd - d) > 1e-9 * max(1.0, d):
+                elif abs(wd - d) > 1e-9 * max(unit, d):
                     v.append(("geom", f"[{j}] {e.key}: witness points of the non-emitting state are {wd} apart, true minimum {d}"))
         if latlon and k > 0 and not isnode:
             ext = max(geo.d(s.p1, x) for x in (s.p2, trace[i][:2], trace[i + 1][:2]))
